@@ -332,6 +332,25 @@ func init() {
 		return ex.ts.Int(SInt(32, false), 2) // codes.Unknown for non-status errors
 	}
 
+	// ---- go-metrics (third party): opaque recording stubs -------------------------------------
+	gmp := "github.com/rcrowley/go-metrics."
+	opq := func(kind string) Intrinsic {
+		return func(ex *Exec, a []Value) Value {
+			name := kind
+			if len(a) > 0 {
+				if s, ok := a[0].(string); ok {
+					name = kind + ":" + s
+				}
+			}
+			return &IfaceV{V: &OpaqueV{Kind: "metric", Str: name, ID: ex.freshID()}}
+		}
+	}
+	I[gmp+"NewRegistry"] = opq("registry")
+	I[gmp+"NewUniformSample"] = opq("sample")
+	I[gmp+"GetOrRegisterHistogram"] = opq("histogram")
+	I[gmp+"GetOrRegisterTimer"] = opq("timer")
+	I[gmp+"GetOrRegisterCounter"] = opq("counter")
+	I[gmp+"GetOrRegisterGaugeFloat64"] = opq("gauge")
 	registerSyncIntrinsics()
 }
 
@@ -364,6 +383,16 @@ func (ex *Exec) opaqueMethod(o *OpaqueV, name string, args []Value) Value {
 	switch name {
 	case "Error", "String":
 		return o.Str
+	}
+	if o.Kind == "metric" {
+		// recording stub of a third-party metric object
+		k := "metric:" + o.Str + "." + name
+		n, _ := ex.ghost[k].(int)
+		ex.ghost[k] = n + 1
+		if len(args) > 0 {
+			ex.ghost[k+".last"] = args[0]
+		}
+		return nil
 	}
 	panic(unsupported("method " + name + " on opaque " + o.Kind))
 }
